@@ -165,6 +165,16 @@ func init() {
 			e.fr.tuples[x] = []Term{v, e.fresh("atoierr", "Int")}
 			return true
 		},
+		"reflect.TypeOf": func(e *enc, x *ssa.Call, a []Term) bool {
+			// nil for a nil interface value, otherwise a type descriptor determined by the dynamic type
+			r := e.define("rtype", "Int", fmt.Sprintf("(ite (= %s 0) 0 (+ 1 (abs (%s %s))))", a[0], e.fKind(), a[0]))
+			if e.typeOfArg == nil {
+				e.typeOfArg = map[*ssa.Call]Term{}
+			}
+			e.typeOfArg[x] = a[0]
+			e.fr.val[x] = r
+			return true
+		},
 		"io/ioutil.ReadDir": func(e *enc, x *ssa.Call, a []Term) bool {
 			// (entries, error): the entries of a successful listing are non-nil
 			ss := e.so.of(x.Call.Signature().Results().At(0).Type())
